@@ -23,10 +23,10 @@ BASE_CFG = {
     "max_nodes": 7,
     "n_tables": (1, 2),
     "final_order": 0.6,
-    "ops": {"ordered_window": 5, "window": 4, "natural_join": 4, "order_rows": 3},
+    "ops": {"ordered_window": 5, "window": 4, "natural_join": 4, "order_rows": 6},
     "null_order_cols": True,
     "block_table_prob": 0.25,
-    "drop_order_col_prob": 0.5,
+    "drop_order_col_prob": 0.7,
 }
 
 INDEX_KINDS = ["default", "shuffled_int", "str_labels", "duplicate_labels", "descending", "range_offset", "range_step"]
@@ -293,4 +293,4 @@ def run(ctx):
                 ev.count(k)
         return f
 
-    ctx.campaign("main", wrapped_cases(cfg), oracle, max_examples=ctx.n(300, 32000))
+    ctx.campaign("main", wrapped_cases(cfg), oracle, max_examples=ctx.n(700, 32000))
